@@ -44,10 +44,11 @@ RULE = (
     "50 001-120 000 lines so that .offset entries are used), lines are JSON objects built from a drawn pool of ASCII and 2/3/4-byte "
     "UTF-8 fragments, LF or CRLF, with/without final newline, with/without action-and-meta-data lines, index or data-stream targets, "
     "optional 'corpora'/'indices' selection; N = 1-17 clients cut into contiguous worker groups; bulk size 1-5000, batch = k x bulk; "
-    "ingest percentage 100 or (0,100]; conflicts none/sequential/random x probability x on-conflict x recency with Rally's RNG seeded "
+    "ingest percentage 100 or (0,100] (table values, integers, floats; template: an integer percentage of 25-300 bulks that is a whole number of bulks); conflicts none/sequential/random x probability x on-conflict x recency with Rally's RNG seeded "
     "from the case; two drawn orders in which co-located clients call params(). Per group one real BulkIndexParamSource is partitioned "
     "for its clients and drained at 100 % under order A, again at 100 % under order B (same multiset of bulks), and with the drawn "
-    "ingest percentage under order A (prefix of the documented length). "
+    "ingest percentage under order A (prefix of the documented length); what a client was handed must not change while it holds it; a sample of the "
+    "cases is run end to end through the real AsyncIoAdapter + bulk runner, unthrottled or throttled. "
     "arith cases: 1-3 files with up to 10^12 documents, up to 1024 clients, drawn contiguous split, bulk size up to 10^6. "
     "arith-grid (enumerated): all contiguous splits of N <= 9 clients x 0..60 documents x with/without meta-data. "
     "Non-trivial (files) = (>= 2 groups and >= 2 targeted files) or a group starts at or beyond line 50 000 of a file (offset entry used) or "
